@@ -5,7 +5,7 @@ def _translate(ctx):
     sp = _u.spec_from_file_location("hvpart_translate", p)
     m = _u.module_from_spec(sp)
     sp.loader.exec_module(m)
-    return m.run(("color", "catalogue", "hash"))
+    return m.run(("color", "catalogue", "hash", "c17model", "c17proofs", "c17thms"))
 
 SPEC = dict(
     id="C18",
@@ -13,29 +13,37 @@ SPEC = dict(
     harness="hv_part", bin="hv_part", mode="c18",
     cases={"quick": 2500, "thorough": 60000},
     translate=_translate,
-    refuted=["HvPart.reference_producer_order_refuted", "HvPart.reference_producer_order_statement_refuted"],
     level="proof",
     design_ref="DESIGN.md §5 C18",
     technique="Lean 4 invariant proofs over a transcription of partition_graph (merge fixpoint, handoff insertion, delay marking) + decision tables re-translated from the Rust source + differential correspondence with the real partitioner on generated DFIR programs + independent output-condition oracle",
-    level_text=("Proved for every flat graph and every accepting run of the model: nodes merged into one group share their loop context "
-                "(subgraph_single_loop); an operator-operator edge without an inserted handoff joins two nodes of one group, handoffs are inserted "
-                "only on operator-operator edges, one per edge id (cross_edge_has_handoff, handoff_only_on_operator_edges); every edge into a "
-                "delayed input received a handoff marked with the declared delay, remapped to Loop/LoopLazy in nested loops (delay_edge_marked) and "
-                "barrier/access-order pairs are in different groups (barrier_pairs_cross) - both using SubgraphMerge's 'enemies never share a group' "
-                "(C17) as explicit hypothesis EnemiesSeparated. Table theorems, by decide over tables re-translated from the Rust source on every "
-                "run: can_connect_colorize only joins Pull->Pull/Pull->Comp/Pull->Push/Comp->Push/Push->Push and never recolours; node_color gives "
-                "pull nodes out-degree<=1, push nodes in-degree<=1; no catalogue operator can be Comp; only defer_tick/defer_tick_lazy declare "
-                "delays; the Tick->Loop remap. PARTIAL: the pull-then-push shape is proved per merge step only "
-                "(merge_joins_pull_to_push_partial; the global in-tree/out-tree argument is not formalised); producer order, reference order and "
-                "loop contiguity are not theorems (they rest on C17's SubgraphMerge invariant and make_loops_contiguous) - they are decided on the "
-                "real output by the oracle and by exact correspondence of the subgraph order. REFUTED: reference producers before borrowers "
-                "(reference_producer_order_statement_refuted, finding F18: a `#ref` from inside a loop block to a handoff outside is hoisted by "
-                "make_loops_contiguous before the producer of the handoff). Tie: the real FlatGraphBuilder -> eliminate -> partition_graph runs on "
-                "generated programs; the dumped flat graph is partitioned by the compiled model and subgraph membership, final subgraph order, "
-                "handoff edges and delay marks are diffed; the oracle evaluates every clause of C18 directly on the real partitioned DfirGraph."),
-    level_note=("SubgraphMerge/topo_sort are re-transcribed and executed (their invariants are C17); EnemiesSeparated is a hypothesis. "
+    level_text=("Proved for every flat graph and every accepting run of the model (no hypothesis about SubgraphMerge/topo_sort left): nodes merged "
+                "into one group share their loop context (subgraph_single_loop); an operator-operator edge without an inserted handoff joins two "
+                "different nodes of one group, a self-loop edge always gets a handoff, handoffs are inserted only on operator-operator edges, one "
+                "per edge id (cross_edge_has_handoff, self_edge_has_handoff, handoff_only_on_operator_edges); SubgraphMerge never puts an enemy "
+                "pair into one group (enemies_separated_holds: enemy-table invariant of new/try_merge proved for this project's transcription in "
+                "Props/EnemiesSep.lean and lifted through the merge fixpoint), hence every edge into a delayed input received a handoff marked "
+                "with the declared delay, remapped to Loop/LoopLazy in nested loops (delay_edge_marked, incl. a delayed self-edge) and "
+                "delayed-edge ends, consecutive access groups and handoff/borrower pairs are in different groups (barrier_pairs_cross); in the "
+                "emitted order the producer of every non-delayed pipe edge precedes its consumer (order_respects_pipe_producers: the final "
+                "validate_topo_sort assert, transcribed - an ok outcome means it passed after make_loops_contiguous). Table theorems, by decide "
+                "over tables re-translated from the Rust source on every run: can_connect_colorize only joins "
+                "Pull->Pull/Pull->Comp/Pull->Push/Comp->Push/Push->Push and never recolours; node_color gives pull nodes out-degree<=1, push nodes "
+                "in-degree<=1; no catalogue operator can be Comp; only defer_tick/defer_tick_lazy declare delays; the Tick->Loop remap. PARTIAL: "
+                "the pull-then-push shape is proved per merge step only (merge_joins_pull_to_push_partial; the global in-tree/out-tree argument "
+                "is not formalised, PullThenPushStatement is a def); reference-producer / borrower-before-consumer / access-group order and loop "
+                "contiguity are not general theorems (ReferenceProducerOrderStatement is a def; they need the SubgraphMerge order invariant of C17 "
+                "for this transcription and a proof of make_loops_contiguous) - they are decided on the real output by the oracle and by exact "
+                "correspondence of the subgraph order; proved only on the former witnesses (reference_producer_order_on_witness_partial, "
+                "borrower_outside_loop_block_rejected). Finding F18 (a `#ref` / access-group dependency into a loop block was hoisted before its "
+                "producer) is FIXED in /repo: loop-ingress ordering edges are now added for every same-tick dependency, not only pipes. Tie: the "
+                "real FlatGraphBuilder -> eliminate -> partition_graph runs on generated programs; the dumped flat graph is partitioned by the "
+                "compiled model and subgraph membership, final subgraph order, handoff edges and delay marks are diffed; the oracle evaluates "
+                "every clause of C18 directly on the real partitioned DfirGraph."),
+    level_note=("SubgraphMerge is re-transcribed (Model/Merge.lean) and executed; of its invariants only 'no enemies in one group' is proved for "
+                "this transcription, the range/order invariant is C17's (other transcription) and covered here by correspondence. topo_sort in "
+                "SubgraphMerge::new is C17's transcription, copied with its proof on every run (HvPart/C17). "
                 "The model represents inserted handoffs by the flat edge they replace (slot ids of new nodes are not modelled)."),
-    trusted_base=["SubgraphMerge invariant (groups = contiguous ranges, order respects edges, no enemies in a group) taken from C17",
+    trusted_base=["that a SubgraphMerge group is emitted as exactly one subgraph, in an order respecting every dependency (C17's range/order invariant; here correspondence + oracle)",
                   "slotmap / BTreeSet iteration orders (ascending keys)",
                   "FlatGraphBuilder is exercised, not modelled"],
     assumptions=["graphs reachable from DFIR surface syntax via FlatGraphBuilder::build + merge_modules + eliminate_extra_unions_tees + adjacent-handoff rejection",
